@@ -12,7 +12,11 @@
     permitted (held, requested) pairs (`Mhd.Locks.Sys`): acyclic order ⇒ no cycle of waiting
     threads, for every number of threads and every interleaving;
   * over the shutdown state machine `Mhd.Stop`: for every number of workers and connections,
-    every scheduler and every network behaviour.
+    every scheduler and every network behaviour;
+  * over the join loop of thread-per-connection mode `Mhd.StopJoin`, whose iteration discipline
+    (how the loop finds its next list position after it released the mutex for a join) is the
+    regenerated fact `Mhd.Gen.Locks.unlockLoops`: for every number of connections and every
+    interleaving of thread exits.
 
   Not carried by any theorem (validated dynamically by the ThreadSanitizer stress run of
   `tools/props/C18.py`, and labelled so in the evidence): that the table is a sound abstraction
